@@ -392,8 +392,12 @@ def re_foreach(ctx):
     the items after the exit would silently be skipped; the two search loops of the package are a frozen table"""
     from .common import foreach_rule
     from ..memo import scope_funcs
-    foreach_rule(ctx, 'Re.for-each', scope_funcs(ctx.repo, 'C06'), 'later degrees / channels keep no target')
-    ctx.need('Re.for-each', 1)
+    fs = scope_funcs(ctx.repo, 'C06')
+    n = foreach_rule(ctx, 'Re.for-each', fs, 'later degrees / channels keep no target')
+    loops = sum(1 for f in fs for x in walk_no_nested(f.node) if isinstance(x, ast.For))
+    # on the reference tree no loop of this scope acts on every item (the per-band search of get_impairment only fills in defaults):
+    # the scan itself is the obligation, so that a loop that starts to do so and exits early is judged
+    ctx.check('Re.for-each', 'loop scan', loops >= 3, 'C06|foreach-scan', 'the loops of the ROADM code were not found', f'{loops} loops scanned, {n} act on every item')
 
 
 def r_mode_copy(ctx):
